@@ -322,6 +322,11 @@ def step(res, hist, op, tier):
                 except Exception:
                     inherited.add((which, 'C15.reparse'))
             others_before = _others(a)
+            nspos = None
+            if op[0] == 'insns':
+                nspos = sum(1 for r in list(a.cssRules)[:op[3]] if r.type == R.NAMESPACE_RULE)
+            elif op[0] == 'addns':
+                nspos = len(_nsrules(a))
             out = apply(a, b, op)
             after = observe(a, b)
             others_after = _others(a)
@@ -367,6 +372,13 @@ def step(res, hist, op, tier):
                     res.violation('C15.edit-effect', 'nsdel|mapping-is-not-the-old-one-without-the-prefix', case, {k: v for k, v in ns0.items() if k != op[1]}, ns1, size=size)
                 if op[0] == 'nsset' and ns1.get(op[1]) != op[2]:
                     res.violation('C15.edit-effect', 'nsset|prefix-not-bound-to-the-uri', case, {op[1]: op[2]}, ns1, size=size)
+                if op[0] in ('insns', 'addns'):
+                    decl = list(before[0][3])
+                    decl.insert(nspos, (op[1], op[2]))
+                    want = ref_ns(decl)
+                    if ns1 != want:
+                        res.violation('C15.edit-effect', f'{op[0]}|mapping-is-not-the-one-of-the-declarations-in-document-order', case,
+                                      {'declarations': [list(d) for d in decl], 'mapping': want}, ns1, size=size)
                 if op[0] == 'delns':
                     gone = before[0][3][op[1]]
                     want = ref_ns([r for i, r in enumerate(before[0][3]) if i != op[1]])
